@@ -110,6 +110,75 @@ def name_constants(fd):
                 n["m"] = c.get("name")
 
 
+def load_records():
+    return json.load(open(CENSUS)).get("records", {})
+
+
+def alias_fields(units, census_recs, log):
+    """units: list of fact dicts (with "records" and "functions").  A field the rules know that is gone from its record while exactly one
+    new field with the same type (and the same offset, or the only candidate of that type) appeared is a renamed field: it keeps the old name."""
+    for d in units:
+        ren = {}
+        for r in d["records"]:
+            known = census_recs.get(r["name"])
+            if not known:
+                continue
+            have = {f["name"] for f in r["fields"]}
+            known_names = {k[0] for k in known}
+            missing = [k for k in known if k[0] not in have]
+            fresh = [f for f in r["fields"] if f["name"] not in known_names]
+            for name, t, off in missing:
+                cands = [f for f in fresh if f.get("t") == t and f.get("off_bits") == off] or [f for f in fresh if f.get("t") == t]
+                if len(cands) == 1:
+                    ren[(r["name"], cands[0]["name"])] = name
+                    fresh.remove(cands[0])
+        if not ren:
+            continue
+        for r in d["records"]:
+            for f in r["fields"]:
+                k = (r["name"], f["name"])
+                if k in ren:
+                    f["renamed_from"] = f["name"]
+                    f["name"] = ren[k]
+        for fd in d["functions"]:
+            for n in fd["nodes"]:
+                if n["k"] == "MemberExpr" and (n.get("rec"), n.get("field")) in ren:
+                    n["field"] = ren[(n["rec"], n["field"])]
+        for k, v in ren.items():
+            if ("<field>", "%s.%s -> %s" % (k[0], k[1], v)) not in log:
+                log.append(("<field>", "%s.%s -> %s" % (k[0], k[1], v)))
+
+
+def alias_globals(units, rel, log):
+    """a global variable the rules know that is gone from its file while exactly one new global of the same type is defined there: renamed"""
+    known = json.load(open(CENSUS)).get("globals", {})
+    defs = {}
+    for d in units:
+        for g in d["globals"]:
+            if g.get("def"):
+                defs.setdefault(g["name"], (rel(g["file"]), g.get("t")))
+    files = {f for f, _ in defs.values()}
+    ren = {}
+    for name, (f, t) in sorted(known.items()):
+        if name in defs or f not in files:
+            continue
+        cands = [n for n, (f2, t2) in defs.items() if n not in known and f2 == f and t2 == t and n not in ren]
+        if len(cands) == 1:
+            ren[cands[0]] = name
+    if not ren:
+        return
+    for d in units:
+        for g in d["globals"]:
+            if g["name"] in ren:
+                g["name"] = ren[g["name"]]
+        for fd in d["functions"]:
+            for n in fd["nodes"]:
+                if n["k"] == "DeclRefExpr" and n.get("dk") == "global" and n.get("name") in ren:
+                    n["name"] = ren[n["name"]]
+    for k, v in ren.items():
+        log.append(("<global>", "%s -> %s" % (k, v)))
+
+
 def load_signatures():
     return json.load(open(CENSUS)).get("signatures", {})
 
